@@ -370,7 +370,9 @@ def selftest(ctx, traces):
         raise tlc.MachineryError("self-test: no suitable accepted traces to corrupt")
     res, stats = tlc.validate_traces("MobAllocTrace.tla", "MobAllocTrace.cfg", [j[0] for j in jobs], scratch=ctx.scratch)
     ctx.jobs.append(dict(job="self-test: corrupted traces must be rejected at the corrupted event", **stats))
-    for (tr, k, tag), v in zip(jobs, res):
+    verdict = {v["id"]: v for v in res}           # verdicts are not guaranteed to come in input order
+    for tr, k, tag in jobs:
+        v = verdict[tr["id"]]
         if v["reached"] != k or not v["tag"].startswith(tag):
             raise tlc.MachineryError("self-test %s: expected rejection at event %d with %s, got %s" % (tr["id"], k + 1, tag, v))
     ctx.extra["selftest_corruptions_rejected"] = len(jobs)
@@ -438,8 +440,8 @@ def run(ctx):
 
     # ---- TV ------------------------------------------------------------
     n_rounds = ctx.pick(1, 10)
-    n_rand = ctx.pick(1200, 19000)
-    n_alg = ctx.pick(240, 1200)
+    n_rand = ctx.pick(1000, 19000)
+    n_alg = ctx.pick(150, 1200)
     total_ev = 0
     for rnd in range(n_rounds):
         cases = (grid_cases(ctx.rng) if rnd == 0 else []) + [rand_case(ctx.rng) for _ in range(n_rand)]
